@@ -348,7 +348,8 @@ def proj_case(draw, tier, kinds):
     shape = draw(st.sampled_from(_shapes_for(typ, tier)))
     m = draw(st.integers(2, 5)) if typ in ("povm", "mprocess") else None
     mode = draw(st.sampled_from(MODES[kind]))
-    scale = draw(st.one_of(st.just(1.0), gen.log_uniform(1e-3, 1e3), gen.log_uniform(1e-3, 1e3)))
+    scale = draw(st.one_of(st.just(1.0), gen.log_uniform(1e-3, 1e3), gen.log_uniform(1e-3, 1e3),
+                           gen.log_uniform(1e-3, 1e-1), gen.log_uniform(1e1, 1e3)))
     case = {
         "kind": kind,
         "type": typ,
@@ -465,21 +466,19 @@ def _classify(case, ctx, R, x):
         if nt:
             ctx.label("violating")
         return nt
-    nt = False
-    any_viol = False
+    any_viol = any_cplx = any_rep = False
     for o, w in zip(ops_of(R, typ, m, x), spectra(R, typ, m, x)):
         if -w[0] > 1e-6 * sc:
             any_viol = True
-            cplx = float(np.max(np.abs(o.imag))) > 1e-6 * sc
-            rep = bool(np.min(np.diff(w)) < 1e-9 * sc) if w.size > 1 else False
-            if cplx:
-                ctx.label("complex-structured")
-            if rep:
-                ctx.label("repeated-eigenvalue")
-            nt = nt or cplx or rep
+            any_cplx = any_cplx or float(np.max(np.abs(o.imag))) > 1e-6 * sc
+            any_rep = any_rep or (bool(np.min(np.diff(w)) < 1e-9 * sc) if w.size > 1 else False)
     if any_viol:
         ctx.label("violating")
-    return nt
+    if any_cplx:
+        ctx.label("complex-structured")
+    if any_rep:
+        ctx.label("repeated-eigenvalue")
+    return any_cplx or any_rep
 
 
 def _feasible(ctx, R, typ, m, kind, px, tol, dd, tag):
